@@ -477,6 +477,12 @@ def rule_stop_flag(ctx, cfg, F):
         # otherwise a concurrent second shutdown() sees the flag and returns while the router is still running
         sets_flag = any(_stores_state(F, f, st) == stopped for b in f.live_blocks() for st in f.stmts(b)) if stopped is not None else False
         if sets_flag:
+            # whoever asks for the stop records it: no way out of this function leaves the proxy "running" (a shutdown that returns early without
+            # writing the state is lost, and a route offered afterwards is served)
+            stores = [b for b in f.live_blocks() if any(_stores_state(F, f, st) == stopped for st in f.stmts(b))]
+            if not f.all_paths_pass(0, set(stores) | set(stopped_targets))[0]:
+                R.violate("%s:returns-without-recording-stop" % f.path, "%s can return without having written the stopped state and without having found it already written" % f.path, f.path, f.loc(flag_switch), config=cfg)
+                continue
             waits = [b for b, t in f.calls() if strip_generics(callee_name(t)) == "crossbeam_channel::Receiver::recv" and "()" in " ".join(t.get("generics", []))]
             # closure form: Result::map(wakeup result, closure that sends and waits)
             for b, t in f.calls():
@@ -497,6 +503,38 @@ def rule_stop_flag(ctx, cfg, F):
                 continue
         R.ok("%s: flag test dominates %d sends; flag-set edge sends nothing; guard held across the sends%s" % (f.path, len(sends), " and the acknowledgement wait" if sets_flag else ""), f.loc(flag_switch), cfg)
     R.count("proxy_senders[%s]" % cfg, n)
+
+
+def rule_stop_nodrop(ctx, cfg, F):
+    R = ctx.rule("STOP-NODROP", "no Drop impl of a router type stops the router or waits for it: the last proxy handle may be dropped by a callback on the router thread itself, "
+                 "where a blocking stop handshake can never be answered")
+    n = 0
+    for f in sorted(F.fns.values(), key=lambda x: x.path):
+        if f.impl_trait != "std::ops::Drop" or "router::" not in (f.impl_self or ""):
+            continue
+        n += 1
+        seen, work, bad = set(), [f], None
+        while work and bad is None:
+            g = work.pop()
+            if g.path in seen:
+                continue
+            seen.add(g.path)
+            for b, t in g.calls():
+                nm = strip_generics(callee_name(t))
+                if nm == "crossbeam_channel::Receiver::recv" or nm.endswith("::RouterProxy::shutdown"):
+                    bad = (g, b, nm)
+                    break
+                h = F.fns.get(t.get("resolved") or t.get("callee")) or getattr(F, "all_fns", {}).get(t.get("resolved") or t.get("callee"))
+                if h is not None and h.path.startswith("router::"):
+                    work.append(h)
+        if bad:
+            R.violate("%s:drop-stops-router" % strip_generics(f.path), "Drop of %s reaches %s: dropped on the router thread (by a callback that owned the last handle) it waits for an answer only that thread could give" % (f.impl_self, bad[2].split("::")[-1]),
+                      f.path, f.loc(0), config=cfg)
+        else:
+            R.ok("Drop of %s neither stops the router nor waits for it" % f.impl_self, f.loc(0), cfg)
+    if n == 0:
+        R.ok("no router type has a Drop impl", None, cfg)
+    R.count("router_drops[%s]" % cfg, n)
 
 
 def _is_state_type(F, ty):
